@@ -178,24 +178,30 @@ func c06r2(c *core.Ctx) {
 			} else {
 				// start := dst.Len() read before the move; count = the count passed to the move
 				okStart := false
-				if id, isID := ast.Unparen(call.Args[1]).(*ast.Ident); isID {
-					if vv, okv := m.Info.ObjectOf(id).(*types.Var); okv {
-						for _, d := range localDefsOf(m, f, vv) {
-							if strings.HasSuffix(m.ExprString(d), ".Len()") && d.Pos() < mv.Pos() {
-								// the table whose length is read must be the move's destination
-								dst := strings.TrimSuffix(m.ExprString(d), ".Len()")
-								for _, a := range mv.Args {
-									if m.ExprString(a) == dst {
-										okStart = true
+				for _, sv := range valueChain(m, f, call.Args[1], 0) {
+					if strings.HasSuffix(sv, ".Len()") || strings.HasSuffix(sv, ".len") {
+						dst := strings.TrimSuffix(strings.TrimSuffix(sv, ".Len()"), ".len")
+						// the read must precede the move (the defining statement of the local)
+						readBefore := true
+						if id, isID := ast.Unparen(m.StripConv(call.Args[1])).(*ast.Ident); isID {
+							if vv, okv := m.Info.ObjectOf(id).(*types.Var); okv {
+								for _, d := range localDefsOf(m, f, vv) {
+									if d.Pos() > mv.Pos() {
+										readBefore = false
 									}
 								}
+							}
+						}
+						for _, a := range mv.Args {
+							if m.ExprString(a) == dst && readBefore {
+								okStart = true
 							}
 						}
 					}
 				}
 				okCount := false
 				for _, a := range mv.Args {
-					if m.ExprString(a) == count {
+					if sameValue(m, f, a, call.Args[2]) {
 						okCount = true
 					}
 				}
@@ -257,32 +263,66 @@ func c06r2(c *core.Ctx) {
 			return true
 		})
 	}
-	// the batch record write-back exists: start/len of batch records are stored through a pointer or index
+	// the batch record write-back exists: the start row of batch records is stored through a pointer or index.
+	// The record type is the element type of the scratch list of batch records (found by type, not by name).
+	recType := ""
+	if fv := m.FieldByKey("slices.batches"); fv != nil {
+		if sl, ok := fv.Type().(*types.Slice); ok {
+			recType = core.NamedName(sl.Elem())
+		}
+	}
+	if recType == "" {
+		return
+	}
 	for _, f := range m.Funcs {
-		wrote := 0
+		stored := map[string]bool{}
 		core.InspectNoLits(f.Body, func(n ast.Node) bool {
 			if as, ok := n.(*ast.AssignStmt); ok {
 				for _, s := range m.DirectStores(f, as) {
-					if k := s.Path.Last(); k == "batchTable.start" || k == "batchTable.len" {
-						wrote++
+					if k := s.Path.Last(); ownerOf(k) == recType {
+						stored[k] = true
 					}
 				}
 			}
 			return true
 		})
-		reads := false
+		read := map[string]bool{}
 		core.InspectNoLits(f.Body, func(n ast.Node) bool {
-			if sel, ok := n.(*ast.SelectorExpr); ok && fieldKeyOf(m, sel) == "batchTable.start" {
-				reads = true
+			if sel, ok := n.(*ast.SelectorExpr); ok {
+				if k := fieldKeyOf(m, sel); ownerOf(k) == recType {
+					read[k] = true
+				}
 			}
 			return true
 		})
-		if reads {
-			if wrote >= 2 {
-				c.OK("C06/R2", f.Name+": batch records", c.At(f.Pos()), "start and length of each moved block are written back into the batch list (through a pointer/index) before they are read by the event passes")
-			} else {
-				c.Violation("C06/R2", f.Name+": batch records", c.At(f.Pos()), f.Name+": reads the start row of batch records but never stores it into the batch list; later passes would iterate rows [0,len) of the destination instead of the moved block")
+		// fields of the record that are read in this function but only initialised by the composite literal
+		// (oldTable/newTable) need no write-back; fields read by the event passes after the move loop must be stored
+		if len(read) == 0 {
+			continue
+		}
+		// the move loop: calls a mover and invokes the callback; fields assigned there
+		var needs []string
+		core.InspectNoLits(f.Body, func(n ast.Node) bool {
+			if cl, ok := n.(*ast.CompositeLit); ok && core.NamedName(m.Info.TypeOf(cl)) == recType {
+				init := map[string]bool{}
+				for _, e := range cl.Elts {
+					if kv, ok := e.(*ast.KeyValueExpr); ok {
+						init[recType+"."+kv.Key.(*ast.Ident).Name] = true
+					}
+				}
+				for k := range read {
+					if !init[k] && !stored[k] {
+						needs = append(needs, k)
+					}
+				}
 			}
+			return true
+		})
+		subject := f.Name + ": batch records"
+		if len(needs) == 0 {
+			c.OK("C06/R2", subject, c.At(f.Pos()), "every field of a batch record that is read was initialised or written back into the list (through a pointer/index)")
+		} else {
+			c.Violation("C06/R2", subject, c.At(f.Pos()), fmt.Sprintf("%s reads %v of batch records but never stores them into the batch list; later passes would iterate rows [0,len) of the destination instead of the moved block", f.Name, needs))
 		}
 	}
 }
@@ -442,7 +482,6 @@ func c06r4(c *core.Ctx) {
 // c06r6: scratch slices of the storage are not taken twice at the same time.
 func c06r6(c *core.Ctx) {
 	m := c.M
-	a := GetAnchors(c)
 	st := m.Prog.LookupType("slices")
 	if st == nil {
 		c.Undecide("C06/R6", "anchor", "type slices not found")
@@ -503,7 +542,7 @@ func c06r6(c *core.Ctx) {
 				if !ok || call.Pos() <= t.at || call.Pos() >= t.end {
 					return true
 				}
-				if k, cal, _ := m.Callee(call); k == core.CallStatic && a.Mentions(cal, t.key) {
+				if k, cal, _ := m.Callee(call); k == core.CallStatic && takesScratch(m, cal, t.key, 0, map[*core.Func]bool{}) {
 					conflict = cal.Name + " at " + c.At(call.Pos())
 				}
 				return true
@@ -562,4 +601,39 @@ func returnsScratch(m *core.Model, f *core.Func) string {
 		return true
 	})
 	return key
+}
+
+// takesScratch: f (transitively) reads the scratch field key into use (any occurrence that is not the target of an assignment).
+func takesScratch(m *core.Model, f *core.Func, key string, depth int, seen map[*core.Func]bool) bool {
+	if seen[f] || depth > 5 {
+		return false
+	}
+	seen[f] = true
+	lhs := map[ast.Node]bool{}
+	core.InspectNoLits(f.Body, func(n ast.Node) bool {
+		if as, ok := n.(*ast.AssignStmt); ok {
+			for _, l := range as.Lhs {
+				lhs[ast.Unparen(l)] = true
+			}
+		}
+		return true
+	})
+	found := false
+	core.InspectNoLits(f.Body, func(n ast.Node) bool {
+		if found {
+			return false
+		}
+		switch x := n.(type) {
+		case *ast.SelectorExpr:
+			if fieldKeyOf(m, x) == key && !lhs[x] {
+				found = true
+			}
+		case *ast.CallExpr:
+			if k, cal, _ := m.Callee(x); k == core.CallStatic && takesScratch(m, cal, key, depth+1, seen) {
+				found = true
+			}
+		}
+		return true
+	})
+	return found
 }
